@@ -116,13 +116,19 @@ def transform(mode, singular_ok=True):
 
 
 @st.composite
-def seg_contour(draw, pt, allow=("l", "c", "q", "super", "short", "noon", "single", "open")):
+def seg_contour(draw, pt, allow=("l", "c", "q", "super", "short", "noon", "single", "open"), mode="int"):
     kinds = ["normal"] * 8
     if "single" in allow:
         kinds += ["single"]
     if "noon" in allow:
         kinds += ["noon", "noon"]
+    if "q" in allow and "c" in allow:
+        kinds += ["impl"]
     kind = draw(st.sampled_from(kinds))
+    if kind == "impl":
+        k = draw(st.integers(1, 4))
+        keep = draw(st.lists(st.booleans(), min_size=k, max_size=k))
+        return impliable_seg_contour(lambda: draw(pt), mode, k, draw(st.integers(0, 2)) == 0, keep)
     if kind == "single":
         closed = draw(st.booleans()) or "open" not in allow
         return [["moveTo", [draw(pt)]], ["closePath" if closed else "endPath", []]]
@@ -179,7 +185,9 @@ def seg_contour(draw, pt, allow=("l", "c", "q", "super", "short", "noon", "singl
 @st.composite
 def seg_glyph(draw, mode, comp_names=(), allow=None, max_contours=4, min_contours=0):
     pt = draw(_pooled_point(mode))
-    kw = {} if allow is None else {"allow": allow}
+    kw = {"mode": mode}
+    if allow is not None:
+        kw["allow"] = allow
     parts = [draw(seg_contour(pt, **kw)) for _ in range(draw(st.integers(min_contours, max_contours)))]
     if comp_names:
         for _ in range(draw(st.sampled_from([0, 0, 1, 1, 2]))):
@@ -219,8 +227,12 @@ _NAMES = [None, None, None, "top", "pt", "a b", ""]
 
 
 @st.composite
-def pt_contour(draw, pt, ids, allow=("l", "c", "q", "super", "short", "noon", "single", "open")):
+def pt_contour(draw, pt, ids, allow=("l", "c", "q", "super", "short", "noon", "single", "open"), mode="int"):
     """Returns a list of [x, y, segType, smooth, name, identifier]."""
+    if "q" in allow and "c" in allow and draw(st.integers(0, 11)) == 0:
+        k = draw(st.integers(1, 4))
+        keep = draw(st.lists(st.booleans(), min_size=k, max_size=k))
+        return impliable_pt_contour(lambda: draw(pt), mode, k, draw(st.integers(0, 2)) == 0, keep, draw(st.integers(0, 11)))
 
     def mk(p, t):
         ident = None
@@ -294,7 +306,9 @@ def pt_contour(draw, pt, ids, allow=("l", "c", "q", "super", "short", "noon", "s
 def pt_glyph(draw, mode, comp_names=(), allow=None, max_contours=4, min_contours=0, ids=None):
     pt = draw(_pooled_point(mode))
     ids = [] if ids is None else ids
-    kw = {} if allow is None else {"allow": allow}
+    kw = {"mode": mode}
+    if allow is not None:
+        kw["allow"] = allow
     items = []
     for _ in range(draw(st.integers(min_contours, max_contours))):
         c = draw(pt_contour(pt, ids, **kw))
@@ -512,8 +526,65 @@ def r_transform(rnd, mode, singular_ok=True):
 _SEGKINDS = ["l", "l", "l", "c", "c", "c", "q", "q", "q", "q0", "super", "short"]
 
 
-def r_seg_contour(rnd, pt):
-    kind = rnd.choice(["normal"] * 8 + ["single", "noon", "noon"])
+def _impliable(pt, k, cubic, mode, choose):
+    """Off-curve points whose midpoints are made explicit on-curve points (TrueType
+    'implied' points written out): returns (offs, ons) with ons[i] between the last
+    off-curve of group i and the first of group i+1. Integer mode doubles the
+    coordinates so that the midpoints are integers."""
+    per = 2 if cubic else 1
+    offs = []
+    for _ in range(k * per):
+        p = pt()
+        offs.append([p[0] * 2, p[1] * 2] if mode == "int" else p)
+    groups = [offs[i * per : (i + 1) * per] for i in range(k)]
+    ons = []
+    for i in range(k):
+        a, b = groups[i][-1], groups[(i + 1) % k][0]
+        m = [(a[0] + b[0]) / 2, (a[1] + b[1]) / 2]
+        if mode == "int":
+            m = [int(m[0]), int(m[1])]
+        ons.append(m)
+    return groups, ons
+
+
+def impliable_seg_contour(pt, mode, k, cubic, keep):
+    """keep[i]: whether the on-curve point after group i is explicit (cubic: always)."""
+    groups, ons = _impliable(pt, k, cubic, mode, None)
+    if cubic or not any(keep):
+        keep = [True] * k
+    # start at an explicit on-curve point
+    s = max(i for i in range(k) if keep[i])
+    ops = [["moveTo", [ons[s]]]]
+    cur = []
+    for j in range(1, k + 1):
+        i = (s + j) % k
+        cur.extend(groups[i])
+        if keep[i]:
+            ops.append(["curveTo" if cubic else "qCurveTo", cur + [ons[i]]])
+            cur = []
+    ops.append(["closePath", []])
+    return ops
+
+
+def impliable_pt_contour(pt, mode, k, cubic, keep, rot):
+    groups, ons = _impliable(pt, k, cubic, mode, None)
+    if cubic or not any(keep):
+        keep = [True] * k
+    out = []
+    for i in range(k):
+        for p in groups[i]:
+            out.append([p[0], p[1], None, False, None, None])
+        if keep[i]:
+            out.append([ons[i][0], ons[i][1], "curve" if cubic else "qcurve", True, None, None])
+    rot %= len(out)
+    return out[rot:] + out[:rot]
+
+
+def r_seg_contour(rnd, pt, mode="int"):
+    kind = rnd.choice(["normal"] * 8 + ["single", "noon", "noon", "impl"])
+    if kind == "impl":
+        k = rnd.randint(1, 4)
+        return impliable_seg_contour(pt, mode, k, rnd.randrange(3) == 0, [rnd.randrange(3) != 0 for _ in range(k)])
     if kind == "single":
         return [["moveTo", [pt()]], ["closePath" if rnd.randrange(2) else "endPath", []]]
     if kind == "noon":
@@ -553,7 +624,7 @@ def r_seg_contour(rnd, pt):
 
 def r_seg_glyph(rnd, mode, comp_names=(), max_contours=4, min_contours=0):
     pt = r_pointfn(rnd, mode)
-    parts = [r_seg_contour(rnd, pt) for _ in range(rnd.randint(min_contours, max_contours))]
+    parts = [r_seg_contour(rnd, pt, mode) for _ in range(rnd.randint(min_contours, max_contours))]
     if comp_names:
         for _ in range(rnd.choice([0, 0, 1, 1, 2])):
             parts.insert(rnd.randint(0, len(parts)), [["addComponent", [rnd.choice(list(comp_names)), r_transform(rnd, mode)]]])
@@ -576,7 +647,11 @@ def r_seg_case(rnd, mode):
     return dict(kind="seg", mode=mode, glyphs=glyphs, ops=ops, T=r_transform(rnd, mode), flags=r_flags(rnd))
 
 
-def r_pt_contour(rnd, pt, ids):
+def r_pt_contour(rnd, pt, ids, mode="int"):
+    if rnd.randrange(12) == 0:
+        k = rnd.randint(1, 4)
+        return impliable_pt_contour(pt, mode, k, rnd.randrange(3) == 0, [rnd.randrange(3) != 0 for _ in range(k)], rnd.randrange(12))
+
     def mk(p, t):
         ident = None
         if rnd.randrange(6) == 0:
@@ -631,7 +706,7 @@ def r_pt_glyph(rnd, mode, comp_names=(), max_contours=4, min_contours=0):
     ids = []
     items = []
     for _ in range(rnd.randint(min_contours, max_contours)):
-        c = r_pt_contour(rnd, pt, ids)
+        c = r_pt_contour(rnd, pt, ids, mode)
         ident = None
         if rnd.randrange(4) == 0:
             ident = "cid%d" % len(ids)
